@@ -397,7 +397,10 @@ theorem guardPhase_spec (C : Ctx) (ses : Session) (u : UserSt) (g : HG)
     have h2' : g1.depth = 0 := by rw [h2]; show g.depth - 1 = 0; omega
     cases hexit : ses.exit with
     | forget => exact absurd hexit hok.noForget
-    | panic => exact hafter g1 h1' h2'
+    | panic =>
+      apply wp_mark' _ _ _ _ _ (by decide)
+      rw [holdUpd_other _ _ _ (by decide)]
+      exact hafter g1 h1' h2'
     | unlock =>
       apply hdrop false g1 _ h1' h2'
       intro p' g2 a b
@@ -539,6 +542,8 @@ theorem scopedHeld_spec (C : Ctx) (ses : Session) (u' : UserSt) (g1 : HG)
     have b' : g2.depth ≤ 1 := by rw [b]; exact hd1
     cases hexit : ses.exit with
     | panic =>
+      apply wp_mark' _ _ _ _ _ (by decide)
+      rw [holdUpd_other _ _ _ (by decide)]
       simp only [wp_unwind]
       exact hhandler g2 a' b'
     | forget => exact absurd hexit hok.noForget
